@@ -999,7 +999,7 @@ func c17R4(p *kit.Program, r *kit.Report, rt, agent *types.Named) {
 			"the handler of "+name+" never calls a peer-checked removing method of "+tab.Name()+": relay entries of finished tunnels are never removed")
 	}
 	r.Count("relay_terminating_frame_handlers", nClose)
-	r.Require(nClose >= 7, "floor: %d OPEN_ERR/CLOSE/RESET handlers of relay families found (expected 7)", nClose)
+	r.Require(nClose >= 4, "floor: %d OPEN_ERR/CLOSE/RESET handlers of relay families found (expected at least 4)", nClose)
 }
 
 // c17R4Handlers: a record registered in a per-connection table is removed again on every path on
